@@ -84,8 +84,13 @@ Definition plain_iota (is_int : bool) (cs : list cdecl) : bool :=
 Definition user_pkgs (pr : prog) : list gpkg :=
   filter (fun p => existsb (String.eqb (p_path p)) (selected_pkgs pr)) (pr_pkgs pr).
 
-Definition all_const_type_ids (p : gpkg) : list string :=
-  dedup_str (flat_map (fun c => match c_type c with Some t => [t] | None => [] end) (p_consts p)).
+(** the defined types of package [p] of which [p] itself declares typed constants ("its package declares ...": a
+    constant of the type declared in another package is not a member) *)
+Definition own_type (pr : prog) (p : gpkg) (id : string) : bool :=
+  match find_type id (pr_types pr) with Some d => String.eqb (n_pkg d) (p_path p) | None => false end.
+
+Definition all_const_type_ids (pr : prog) (p : gpkg) : list string :=
+  filter (own_type pr p) (dedup_str (flat_map (fun c => match c_type c with Some t => [t] | None => [] end) (p_consts p))).
 
 Definition check_pkg (pr : prog) (obs : list enum) (p : gpkg) : bool :=
   forallb (fun id =>
@@ -97,12 +102,12 @@ Definition check_pkg (pr : prog) (obs : list enum) (p : gpkg) : bool :=
         same_members cs (en_members e) && iota_sound is_int e
         && (negb (plain_iota is_int cs) || en_is_iota e)
     | _, _ => false
-    end) (all_const_type_ids p).
+    end) (all_const_type_ids pr p).
 
 (** every observed enum belongs to a selected package's constants *)
 Definition check_C10 (pr : prog) (obs : list enum) : bool :=
   forallb (check_pkg pr obs) (user_pkgs pr)
-  && forallb (fun e => existsb (fun p => existsb (String.eqb (en_id e)) (all_const_type_ids p)) (user_pkgs pr)) obs.
+  && forallb (fun e => existsb (fun p => existsb (String.eqb (en_id e)) (all_const_type_ids pr p)) (user_pkgs pr)) obs.
 
 Definition chk_prop (c : prog * obs_enums) : bool :=
   match snd c with
